@@ -3,6 +3,7 @@ import DepsDev.Proofs.C02Gem
 import DepsDev.Proofs.C02Pep
 import DepsDev.Proofs.C02MvnShape
 import DepsDev.Proofs.C02Mvn39
+import DepsDev.Proofs.C02MvnParse
 import DepsDev.Props.C01Maven
 
 /-!
@@ -28,8 +29,10 @@ with `WF` = "both the reference and the library accept the version". What is pro
 | Maven | `MavenAgrees` | refuted four ways (+ a spelling-level one); `maven_agree_partial`: the whole DESIGN 6.4 shape (stages S1–S4) with exactly the four classes excluded; `maven_agree_keyorder`: outside C01's `ZeroDotQual` both sides are C01's key order |
 
 The second clause of the property ("the normal form is always accepted") is
-`parse s (render a) = ok (embed a)`; it is not proved here: the driver evaluates it
-structurally on every generated tree (`eq=1` in the `embed` op) — a test, labelled as such.
+`parse s (render a) = ok (embed a)`; it is proved for Maven (`maven_normal_form_accepted`, hence
+`maven_compare_strings` on the strings themselves); for the other ecosystems the driver
+evaluates it structurally on every generated tree (`eq=1` in the `embed` op) — a test,
+labelled as such.
 -/
 namespace DepsDev.Props.C02
 
@@ -299,6 +302,20 @@ theorem maven_agree_partial : Agrees embedMaven MavenCV.compare MavenDomain := b
   intro a b ha hb
   exact maven_agree' (goodAst_of_domain ha) (goodAst_of_domain hb)
 
+/-- **Maven, clause 2** (the normal form is accepted, and `embedMaven` is what `System.Parse` makes
+of it): for every tree of DESIGN 6.4 whose numbers are below `infinity`. -/
+theorem maven_normal_form_accepted (a : MavenCV.Ast) (h : MavenWF a) :
+    parse .maven (MavenCV.render a) = .ok (embedMaven a) :=
+  parse_render a h.1 h.2
+
+/-- **Maven, on strings**: for all version strings `render a`, `render b` of the DESIGN 6.4 shape
+outside the four finding classes (numbers without leading zeros, lower-case qualifier,
+`-SNAPSHOT`), `System.Compare` has the sign of `ComparableVersion.compareTo`. -/
+theorem maven_compare_strings (a b : MavenCV.Ast) (ha : MavenDomain a) (hb : MavenDomain b) :
+    compareStr .maven (MavenCV.render a) (MavenCV.render b) = .ok (ordToInt (MavenCV.compare a b)) := by
+  rw [compareStr_render a b ha.1.1 ha.1.2 hb.1.1 hb.1.2]
+  exact maven_agree_partial a b ha hb
+
 /-- Hypothesis clause of `maven_agree_keyorder`: not C01's `ZeroDotQual` — the last number is
 `0` and a qualifier other than `ga`/`final`/`release` is attached to it with a dot
 (`4.1.0.Beta1`, `2.0.alpha`; contains `Maven.NoZeroDot`). Not a disagreement class. -/
@@ -445,6 +462,17 @@ example : compareStr .maven "1.0-rc-1".toUTF8.toList "1.0".toUTF8.toList = .ok (
     parse .maven (MavenCV.render mvRc1) = .ok (embedMaven mvRc1) ∧
     parse .maven (MavenCV.render mvSnap) = .ok (embedMaven mvSnap) := by
   decide +kernel
+
+/-- `maven_compare_strings` / `maven_normal_form_accepted` on `1.0-rc-1` vs `1.0` and on the
+transition spelling `2.0.1-a1`. -/
+example : compareStr .maven "1.0-rc-1".toUTF8.toList "1.0".toUTF8.toList = .ok (-1) := by
+  have h := maven_compare_strings mvRc1 mv10 mvRc1_dom mv10_dom
+  have e1 : MavenCV.render mvRc1 = "1.0-rc-1".toUTF8.toList := by decide +kernel
+  have e2 : MavenCV.render mv10 = "1.0".toUTF8.toList := by decide +kernel
+  rw [e1, e2] at h
+  exact h.trans (by decide +kernel)
+
+example : parse .maven (MavenCV.render mvA1) = .ok (embedMaven mvA1) := maven_normal_form_accepted mvA1 (by decide)
 
 /-- `maven39_agree_partial` on `1.0-rc-1 < 1.0` and `2.0.1-a1 = 2.0.1-alpha-1`. -/
 example : vcompare (embedMaven mvRc1) (embedMaven mv10) = .ok (ordToInt (MavenCV39.compare mvRc1 mv10)) ∧
